@@ -153,6 +153,9 @@ struct World {
     drops: Rc<RefCell<Vec<usize>>>,
     /// inside `run_until_stalled`: the harness cannot count steps, so the FIFO position is not checked
     batch: bool,
+    /// the vtable calls the test futures and the outside operations make, in order: 4*task + kind
+    /// (0 clone, 1 wake, 2 wake_by_ref, 3 drop); the model logs the same (`RcModel.lean` `vlog`)
+    vt: Vec<u64>,
 }
 
 impl World {
@@ -196,6 +199,13 @@ impl World {
         f();
         let after = self.wake_count();
         self.note_enqueue(target, before, after, "wake");
+    }
+    fn vt(&mut self, kind: u64, t: usize) {
+        self.vt.push(4 * t as u64 + kind);
+    }
+    fn vt_digest(&self) -> String {
+        let h = self.vt.iter().fold(7u64, |h, c| (h * 131 + c + 1) % 1_000_000_007);
+        format!("{}#{}", self.vt.len(), h)
     }
     fn new_task(&mut self) -> usize {
         let tid = self.spawned;
@@ -265,8 +275,11 @@ impl Future for ScriptTask {
                 Act::C => break Poll::Ready(()),
                 Act::Y => {
                     w.pc[tid] += 1;
+                    w.vt(2, tid);
                     w.wake_with(tid, || cx.waker().wake_by_ref());
+                    w.vt(0, tid);
                     let clone = cx.waker().clone();
+                    w.vt(1, tid);
                     w.wake_with(tid, || clone.wake());
                     break Poll::Pending;
                 }
@@ -276,6 +289,7 @@ impl Future for ScriptTask {
                         w.tokens[k] -= 1;
                         w.pc[tid] += 1;
                     } else {
+                        w.vt(0, tid);
                         w.waiters[k].push((tid, cx.waker().clone()));
                         break Poll::Pending;
                     }
@@ -283,15 +297,20 @@ impl Future for ScriptTask {
                 Act::S(k) => {
                     w.chan(k);
                     w.tokens[k] += 1;
-                    let ws: Vec<(usize, Waker)> = if w.sticky {
-                        w.waiters[k].clone()
-                    } else {
-                        std::mem::take(&mut w.waiters[k])
-                    };
-                    for (t, wk) in ws {
-                        if w.sticky {
+                    if w.sticky {
+                        // every registered waker: clone it, wake the clone by reference, drop the clone
+                        for i in 0..w.waiters[k].len() {
+                            let (t, wk) = w.waiters[k][i].clone();
+                            w.vt(0, t);
+                            w.vt(2, t);
                             w.wake_with(t, || wk.wake_by_ref());
-                        } else {
+                            w.vt(3, t);
+                            drop(wk);
+                        }
+                    } else {
+                        let ws: Vec<(usize, Waker)> = std::mem::take(&mut w.waiters[k]);
+                        for (t, wk) in ws {
+                            w.vt(1, t);
                             w.wake_with(t, || wk.wake());
                         }
                     }
@@ -377,6 +396,7 @@ fn build(case: &Case) -> (Executor<'static>, Rc<RefCell<World>>) {
         fails: vec![],
         drops: Rc::new(RefCell::new(vec![])),
         batch: false,
+        vt: vec![],
     }));
     let drops = Rc::clone(&world.borrow().drops);
     for _ in 0..case.roots.min(case.scripts.len()) {
@@ -585,15 +605,17 @@ fn run_case(case: &Case) -> (String, String) {
         "-".into()
     };
 
+    let vt = world.borrow().vt_digest();
     let obs = format!(
-        "{} | done={} compl={} end={} rus={} recv={} blocked={}",
+        "{} | done={} compl={} end={} rus={} recv={} blocked={} vt={}",
         toks.join(" "),
         if done.is_empty() { "-".into() } else { done.join(".") },
         compl,
         if stalled { "stall" } else { "cut" },
         rus,
         recv.join(","),
-        if blocked.is_empty() { "-".into() } else { blocked.join(",") }
+        if blocked.is_empty() { "-".into() } else { blocked.join(",") },
+        vt
     );
     let w = world.borrow();
     let oracle = if w.fails.is_empty() { "ok".to_string() } else { format!("FAIL:{}", w.fails.join(";")) };
@@ -715,6 +737,7 @@ fn run_ops(case: &Case, ops: &[Op]) -> (String, String) {
                     match *op {
                         Op::Wake(..) => {
                             let (t, wk) = w.waiters[k].remove(i);
+                            w.vt(1, t);
                             if alive {
                                 w.wake_with(t, || wk.wake());
                             } else {
@@ -722,21 +745,26 @@ fn run_ops(case: &Case, ops: &[Op]) -> (String, String) {
                             }
                         }
                         Op::ByRef(..) => {
-                            let (t, wk) = w.waiters[k][i].clone();
+                            // `wake_by_ref` on the registered waker itself (no clone)
+                            let t = w.waiters[k][i].0;
+                            w.vt(2, t);
+                            let before = w.wake_count();
+                            w.waiters[k][i].1.wake_by_ref();
                             if alive {
-                                w.wake_with(t, || wk.wake_by_ref());
-                            } else {
-                                wk.wake_by_ref();
+                                let after = w.wake_count();
+                                w.note_enqueue(t, before, after, "wake");
                             }
                         }
                         Op::Clone(..) => {
                             let (t, wk) = &w.waiters[k][i];
                             let c = (*t, wk.clone());
+                            w.vt.push(4 * c.0 as u64);
                             w.waiters[k].push(c);
                         }
                         _ => {
                             abandoned = true;
                             let e = w.waiters[k].remove(i);
+                            w.vt(3, e.0);
                             drop(w);
                             drop(e);
                         }
@@ -749,15 +777,29 @@ fn run_ops(case: &Case, ops: &[Op]) -> (String, String) {
                 w.chan(k);
                 w.tokens[k] += 1;
                 let sticky = w.sticky;
-                let ws: Vec<(usize, Waker)> =
-                    if sticky { w.waiters[k].clone() } else { std::mem::take(&mut w.waiters[k]) };
                 let alive = exec.is_some();
-                for (t, wk) in ws {
-                    match (alive, sticky) {
-                        (true, true) => w.wake_with(t, || wk.wake_by_ref()),
-                        (true, false) => w.wake_with(t, || wk.wake()),
-                        (false, true) => wk.wake_by_ref(),
-                        (false, false) => wk.wake(),
+                if sticky {
+                    for i in 0..w.waiters[k].len() {
+                        let (t, wk) = w.waiters[k][i].clone();
+                        w.vt(0, t);
+                        w.vt(2, t);
+                        if alive {
+                            w.wake_with(t, || wk.wake_by_ref());
+                        } else {
+                            wk.wake_by_ref();
+                        }
+                        w.vt(3, t);
+                        drop(wk);
+                    }
+                } else {
+                    let ws: Vec<(usize, Waker)> = std::mem::take(&mut w.waiters[k]);
+                    for (t, wk) in ws {
+                        w.vt(1, t);
+                        if alive {
+                            w.wake_with(t, || wk.wake());
+                        } else {
+                            wk.wake();
+                        }
                     }
                 }
                 wc_str(&exec)
@@ -878,11 +920,12 @@ fn run_ops(case: &Case, ops: &[Op]) -> (String, String) {
     }
     let done: Vec<String> = w.done_order.iter().map(|t| t.to_string()).collect();
     let obs = format!(
-        "{} | done={} wc={} recv={}",
+        "{} | done={} wc={} recv={} vt={}",
         toks.join(" "),
         if done.is_empty() { "-".into() } else { done.join(".") },
         wc_str(&exec),
-        recv.join(",")
+        recv.join(","),
+        w.vt_digest()
     );
     let spawned = w.spawned;
     drop(w);
@@ -1464,11 +1507,29 @@ fn run_nested(scripts: &[Vec<NAct>]) -> (String, String) {
     if end == "stall" && w.done.iter().any(|d| !*d) {
         w.fails.push("stalled-with-unfinished-task".into());
     }
+    // the state the guard panic leaves behind (`catch_unwind` above): the polls that were in progress have been
+    // taken out of the queue unfinished; nothing else may be missing, nothing may be held twice
+    if end == "panic" {
+        if wc != w.expq.len() {
+            let want = w.expq.len();
+            w.fails.push(format!("queue-size-after-panic:{wc}-expected:{want}"));
+        }
+        for t in 0..n {
+            if !w.done[t] && !w.active[t] && !w.expq.contains(&t) {
+                w.fails.push(format!("lost-after-panic:{t}"));
+            }
+            if w.expq.iter().filter(|x| **x == t).count() > 1 {
+                w.fails.push(format!("queued-twice-after-panic:{t}"));
+            }
+        }
+    }
     let done: Vec<String> = (0..n).filter(|t| w.done[*t]).map(|t| t.to_string()).collect();
+    let act: Vec<String> = (0..n).filter(|t| w.active[*t]).map(|t| t.to_string()).collect();
     let obs = format!(
-        "{} | wc={wc} end={end} done={}",
+        "{} | wc={wc} end={end} done={} act={}",
         w.toks.join(" "),
-        if done.is_empty() { "-".to_string() } else { done.join(".") }
+        if done.is_empty() { "-".to_string() } else { done.join(".") },
+        if act.is_empty() { "-".to_string() } else { act.join(".") }
     );
     let oracle = if w.fails.is_empty() { "ok".to_string() } else { format!("FAIL:{}", w.fails.join(";")) };
     // break the cycles world -> executor -> tasks -> futures -> world
@@ -1620,7 +1681,7 @@ fn main() {
             (4, 4, &a1, 400_009),
         ]
     } else {
-        vec![(1, 4, &a2, 1), (2, 3, &a1, 1), (3, 3, &a1, 2), (4, 4, &a1, 10_000_019)]
+        vec![(1, 4, &a2, 1), (2, 3, &a1, 1), (3, 3, &a1, 13), (4, 4, &a1, 10_000_019)]
     };
     for (n, len, alpha, stride) in plan {
         enumerate(n, len, alpha, stride, &mut emit_case);
@@ -1630,7 +1691,7 @@ fn main() {
         part.set(0);
     }
     let mut rng = Rng::new(o.seed ^ 0xC15);
-    let n = if o.thorough() { 400_000 } else { 20_000 };
+    let n = if o.thorough() { 400_000 } else { 10_000 };
     for k in 0..n {
         let mut r = rng.fork();
         if counting || k % sn != si {
@@ -1652,7 +1713,7 @@ fn main() {
         }
     };
     let fops = ["send", "ds", "dr", "try", "pa", "pb"];
-    let flen = if o.thorough() { 7 } else { 6 };
+    let flen = if o.thorough() { 7 } else { 5 };
     let mut layer: Vec<String> = vec!["f".to_string()];
     emit_line("f");
     for _ in 0..flen {
@@ -1674,7 +1735,7 @@ fn main() {
     // ---- `v`: every sequence of outside operations up to a length on a few systems, then random ones
     let systems = ["d 1 : W0 W0", "s 2 : W0 Y W0 / W0", "d 1 : P J / W0 Y", "d 2 : W0 S0 / Y W0 / W0"];
     let vops = ["s", "u", "w0.0", "r0.0", "c0.0", "d0.0", "w0.1", "r0.1", "S0", "X", "p"];
-    let vlen = if o.thorough() { 5 } else { 4 };
+    let vlen = if o.thorough() { 5 } else { 3 };
     for sys in systems {
         let mut layer: Vec<String> = vec![format!("v {sys} ;")];
         for _ in 0..vlen {
@@ -1693,7 +1754,7 @@ fn main() {
         eprintln!("outside-operation sequences ({} systems, 11 ops, length <= {vlen}): {} cases", systems.len(), lines.get());
     }
     let mut rng = Rng::new(o.seed ^ 0xC15_0B5);
-    let n = if o.thorough() { 300_000 } else { 30_000 };
+    let n = if o.thorough() { 300_000 } else { 10_000 };
     for k in 0..n {
         let mut r = rng.fork();
         if counting || k % sn != si {
@@ -1728,7 +1789,7 @@ fn main() {
     // ---- `n`: `Executor::step` from inside a poll: every tuple of scripts over {Y, N, w<u>} up to a size, then random
     lines.set(0);
     let nplan: &[(usize, usize, usize)] =
-        if o.thorough() { &[(1, 5, 1), (2, 4, 1), (3, 3, 7), (4, 2, 3)] } else { &[(1, 4, 1), (2, 3, 1), (3, 2, 1)] };
+        if o.thorough() { &[(1, 5, 1), (2, 4, 1), (3, 2, 1), (3, 3, 7), (4, 2, 3)] } else { &[(1, 4, 1), (2, 3, 1), (3, 2, 3)] };
     for &(nt, len, stride) in nplan {
         let mut alpha = vec![NAct::Y, NAct::N];
         alpha.extend((0..nt).map(NAct::Wk));
@@ -1763,7 +1824,7 @@ fn main() {
         eprintln!("nested-step systems: {} cases", lines.get());
     }
     let mut rng = Rng::new(o.seed ^ 0xC15_2E57);
-    let n = if o.thorough() { 200_000 } else { 20_000 };
+    let n = if o.thorough() { 200_000 } else { 10_000 };
     for k in 0..n {
         let mut r = rng.fork();
         if counting || k % sn != si {
